@@ -280,7 +280,7 @@ class TermGen:
         if kind == "op":
             return ["s", r.choice(OPS)]
         if kind == "kw":
-            keys = r.sample(["a", "b", "c"], r.randint(1, 2))
+            keys = r.sample(["a", "b", "c"], r.randint(1, 3))
             return ["im", [[k, self.term(depth + 1)] for k in keys]]
         if kind == "sl":
             n = r.randint(0, 3)
